@@ -50,9 +50,11 @@ func (s *scanner) reset() {
 // an error state is returned if maxNestingDepth was exceeded, otherwise successState is returned.
 func (s *scanner) pushParseState(newParseState int, successState int) int {
 	s.parseState = append(s.parseState, newParseState)
-	if len(s.parseState) <= maxNestingDepth {
+	if len(s.parseState) <= maxNestingDepth+1 { // the innermost (empty) value does not count
 		return successState
 	}
+	s.step = stateError
+	s.errContext = "exceeded max nesting depth"
 	return scanError
 }
 
